@@ -8,6 +8,7 @@ package timing
 
 import (
 	"sync"
+	"sync/atomic"
 
 	"github.com/sarchlab/akita/v5/internal/verifrt"
 )
@@ -133,5 +134,39 @@ func VerifC05_ParallelPause() {
 	r.mu.Lock()
 	verifrt.Assert(r.finished == p.n && r.started == p.n && r.running == 0, "every-event-handled-exactly-once-after-continue")
 	r.mu.Unlock()
+	verifrt.Cover("end")
+}
+
+// VerifC05_TwoPausers: two goroutines call Pause concurrently while the run is
+// in progress; each Pause that has returned finds the engine quiescent.
+func VerifC05_TwoPausers() {
+	p := vpDraw(1)
+	r := vpNewRun(p, false)
+	r.yieldInHandler = true
+	r.start()
+	var left int32 = 2
+	done := make(chan struct{})
+	for k := 0; k < 2; k++ {
+		go func() {
+			verifrt.Jitter(100)
+			r.e.Pause()
+			verifrt.Assert(!r.inHandler, "no-handler-executing-once-any-pause-has-returned")
+			h0 := len(r.handled)
+			verifrt.Jitter(100)
+			verifrt.Yield()
+			verifrt.Assert(!r.inHandler && len(r.handled) == h0, "no-handler-runs-while-a-pauser-holds-the-pause")
+			if atomic.AddInt32(&left, -1) == 0 {
+				r.e.Continue()
+				close(done)
+			}
+		}()
+	}
+	verifrt.Jitter(100)
+	verifrt.Assert(r.e.Run() == nil, "run")
+	<-done
+	if !r.allHandled() {
+		verifrt.Assert(r.e.Run() == nil, "run-again")
+	}
+	verifrt.Assert(r.allHandled() && len(r.handled) == p.n, "every-event-handled-exactly-once-after-continue")
 	verifrt.Cover("end")
 }
